@@ -1,4 +1,5 @@
 """C06 xtl::any: history explorer (E2) over 3 any objects x 11 payload types x every throw point; spelling-sensitive payload class; cast-target type alphabet."""
+import hashlib
 import os
 import re
 import subprocess
@@ -9,8 +10,7 @@ HERE = os.path.dirname(os.path.abspath(__file__))
 SRC = os.path.join(HERE, "harness.cpp")
 NSRC = os.path.join(HERE, "nested.cpp")
 CSRC = os.path.join(HERE, "casts.cpp")
-N_FORMS = 13             # casts.cpp: F_COUNT
-N_PROBED_FORMS = 10      # casts.cpp: the pointer and reference forms (F_P .. F_RCR); the by-value forms cannot return an array / function
+N_FORMS = 13   # casts.cpp: F_COUNT
 
 
 def build():
@@ -37,29 +37,47 @@ def cast_table(std, deep):
     return n, exotic
 
 
+def probe(std, defs):
+    """Capability probe: does casts.cpp compile (-fsyntax-only) in PROBE mode with these defines against the tree under test?
+    Both outcomes are cached under the hash of the PREPROCESSED translation unit, so any edit of xany.hpp re-probes."""
+    base = ["g++", "-std=" + std, "-I" + vlib.INCLUDE, "-I" + os.path.join(vlib.VERIF, "engine")] + ["-D" + d for d in defs]
+    r = subprocess.run(base + ["-E", "-P", CSRC], stdout=subprocess.PIPE, stderr=subprocess.PIPE)
+    if r.returncode != 0:
+        raise vlib.HarnessError("preprocessing casts.cpp failed: " + r.stderr.decode()[-2000:])
+    os.makedirs(vlib.CACHE, exist_ok=True)
+    mark = os.path.join(vlib.CACHE, "c06probe-" + hashlib.sha256(" ".join(base).encode() + b"\0" + r.stdout).hexdigest()[:24])
+    if os.path.exists(mark + ".ok"):
+        return True
+    if os.path.exists(mark + ".bad"):
+        return False
+    c = subprocess.run(base + ["-O0", "-fsyntax-only", CSRC], stdout=subprocess.PIPE, stderr=subprocess.PIPE, text=True)
+    if c.returncode == 0:
+        open(mark + ".ok", "w").close()
+        return True
+    if "error:" not in c.stderr:
+        raise vlib.HarnessError("capability probe died without a diagnostic (rc=%s): %s" % (c.returncode, c.stderr[-1000:]))
+    with open(mark + ".bad", "w") as f:
+        f.write(c.stderr[:2000])
+    return False
+
+
 def build_casts(std, deep):
-    """Capability probes (one syntax-only compile per array / function target type, per form only if the group fails), then the real build."""
+    """Capability probes (one syntax-only compile per target type with all its forms; per form only if that fails), then the real build.
+    Returns (binary, number of array/function target types, number of (form, target) pairs found ill-formed)."""
     n, exotic = cast_table(std, deep)
     base_defs = ["C06_DEEP"] if deep else []
 
-    def probe(defs):
-        return vlib.compile_cxx(CSRC, "c06probe", std=std, opt="-O0", san="none", defines=base_defs + defs, syntax_only=True, expect_fail=True) is not None
-
-    def caps_of(tid):
-        if probe(["C06_PROBE_TARGET=%d" % tid]):
-            return (1 << N_PROBED_FORMS) - 1
-        m = 0
-        for f in range(N_PROBED_FORMS):
-            if probe(["C06_PROBE_TARGET=%d" % tid, "C06_PROBE_FORM=%d" % f]):
-                m |= 1 << f
-        return m
-
-    masks = vlib.parallel([(lambda t=t: caps_of(t)) for t in exotic])
-    caps = [(1 << N_FORMS) - 1] * n
-    for t, m in zip(exotic, masks):
-        caps[t] = m
+    full = (1 << N_FORMS) - 1
+    group = vlib.parallel([(lambda t=t: probe(std, base_defs + ["C06_PROBE_TARGET=%d" % t])) for t in range(n)])
+    # by-value forms of an array / function type are never instantiated (casts.cpp: plain_object), so they need no probe
+    todo = [(t, f) for t in range(n) if not group[t] for f in range(N_FORMS if t not in exotic else N_FORMS - 3)]
+    single = vlib.parallel([(lambda t=t, f=f: probe(std, base_defs + ["C06_PROBE_TARGET=%d" % t, "C06_PROBE_FORM=%d" % f])) for t, f in todo])
+    caps = [full if group[t] else (0 if t not in exotic else (7 << (N_FORMS - 3))) for t in range(n)]
+    for (t, f), ok in zip(todo, single):
+        if ok:
+            caps[t] |= 1 << f
     b = vlib.compile_cxx(CSRC, "c06cast", std=std, opt="-O1", san="asan-only", defines=base_defs + ["C06_CAPS=" + ",".join(str(c) for c in caps)])
-    return b, len(exotic), sum(1 for m in masks if m != (1 << N_PROBED_FORMS) - 1)
+    return b, len(exotic), sum(bin(full & ~c).count("1") for c in caps)
 
 
 def plan(tier):
@@ -68,30 +86,64 @@ def plan(tier):
     return [["--objects", "2", "--inst", "2any"], ["--objects", "3", "--inst", "3any"]]
 
 
+def plan_spell(tier):
+    if tier == "quick":
+        return [["--objects", "2", "--inst", "2any-spell"]]
+    return [["--objects", "2", "--inst", "2any-spell"], ["--objects", "3", "--one-value", "--inst", "3any-1v-spell"]]
+
+
+CAST_STDS = ("c++14", "c++17")
+
+
 def run(ctx):
-    b, bn = vlib.parallel([build, build_nested])
+    deep = ctx.tier != "quick"
+    built = vlib.parallel([build, build_nested, build_spell] + [(lambda s=s: build_casts(s, deep)) for s in CAST_STDS])
+    b, bn, bs = built[:3]
+    casts = dict(zip(CAST_STDS, built[3:]))
     dl = str(int(max(60, ctx.time_left() - 30)))
     nest = ["--nest", "3" if ctx.tier == "quick" else "4"]
     vlib.parallel([(lambda a=a: ctx.run_harness(b, a + ["--deadline", dl], tag="c06")) for a in plan(ctx.tier)] +
+                  [(lambda a=a: ctx.run_harness(bs, a + ["--deadline", dl], tag="c06s")) for a in plan_spell(ctx.tier)] +
+                  [(lambda s=s: ctx.run_harness(casts[s][0], ["--casts", "--std", s], tag="c06cast-" + s)) for s in CAST_STDS] +
                   [lambda: ctx.run_harness(bn, nest + ["--deadline", dl], tag="c06n"), lambda: ctx.run_harness(b, ["--tu-matrix"], tag="c06")])
+    for s in CAST_STDS:
+        ctx.smax("cast_capability_probe_ill_formed_pairs_" + s.replace("+", "p"), casts[s][2])
     ctx.stats["evaluations"] = ctx.stats.get("transitions", 0)
     ctx.stats["distinct_nontrivial"] = ctx.stats.get("states", 0)
     ctx.rule = ("BFS over operation histories of a world of 2-3 xtl::any objects (state = history replayed on a fresh world, deduplicated by the observed (type,value,moved-from) of every object). "
-                "Alphabet: construct/assign from lvalue and rvalue of 11 payload types (8-byte and 16-byte in-place, 8-byte throwing-move heap, 24-byte heap, throwing-copy heap and in-place, alignas(16), noexcept-copy/throwing-move, int, and a heap-stored and an in-place type with CLASS-SPECIFIC operator new/delete whose blocks the registry tracks: creation and release must use matching allocation functions) x values, "
+                "Alphabet: construct/assign from a non-const lvalue, a CONST lvalue and an rvalue of 11 payload types (8-byte and 16-byte in-place, 8-byte throwing-move heap, 24-byte heap, throwing-copy heap and in-place, alignas(16), noexcept-copy/throwing-move, int, and a heap-stored and an in-place type with CLASS-SPECIFIC operator new/delete whose blocks the registry tracks: creation and release must use matching allocation functions) x values, "
                 "copy/move construct, copy/move assign incl. self copy-assign, member swap and std::swap incl. self-swap, reset, clear, destroy/recreate, mutation through any_cast<T&>. "
                 "FAULTS: every operation is run unfaulted (which counts the K throw points it reaches in that state) and then once per k=1..K with the k-th copy/move throwing. "
                 "Oracle: value model with the strong guarantee for copy-assignment/assignment from a value, address-keyed lifetime registry (construct once, never used dead, destroyed once, nothing alive after teardown), "
                 "ASan/LSan; in every new state all cast forms x all 8 types + unrelated types. The tracked payloads are address-sensitive: the registry binds each object's heap cell to the address a constructor put it at, so bytes exchanged or relocated without move construction are reported. "
+                "SPELLING-SENSITIVE PAYLOAD CLASS (instances *-spell: the same explorer, operations, faults and oracle, harness.cpp built with -DC06_SPELL over the payload table c06_spell.hpp): 15 value-semantic payload types for which the way the library SPELLS a construction selects the constructor - "
+                "JSON-like node with node(initializer_list<node>) (16 bytes in place / 48 bytes heap with a throwing copy), list of int that also converts to int, box of std::any with box(initializer_list<std::any>), std::vector<xtl::any>, std::vector<std::any>, "
+                "unconstrained forwarding constructor (8 / 48 bytes), explicit copy+move constructors (8 / 48 bytes), aggregate (16 / 48 bytes), aggregate whose first member is an xtl::any, type with a converting constructor from xtl::any - plus Small and int; "
+                "additionally construct/assign from a CONST RVALUE. The value the model compares folds in the object's shape (scalar v, list of n elements, built-by-the-wrong-constructor codes), so a copy made by T{src}, by copy-initialization or through a foreign conversion differs from its source; reference = direct-initialization T(expr). "
+                "CAST-TARGET part (casts.cpp, built as c++14 and c++17): 22 source kinds (array / const array / 2-D array / rvalue array lvalues, string literal, function names incl. noexcept (c++17), function pointers, pointer to array, pointers, pointers to members, nullptr, int, empty) x 11 routes (direct, assignment into empty / in-place / heap-holding target, copy / move / const-rvalue construction, copy / move assignment, swap both ways; both objects constructed in place by the named expression) x "
+                "57 (quick) / 105 (thorough) target types (object types, cv-qualified, pointers to / arrays of arrays and functions, array types of known and unknown bound, function types incl. cv/ref-qualified and noexcept) x 13 cast forms (any*, const any*, const T, null operand x2, T& / const T& on any&, const any&, any&&, by value x3); "
+                "expected outcome COMPUTED as not-empty && is_same<decay_t<decltype((source))>, remove_cv_t<remove_reference_t<T>>>, on success same address in all forms and the stored value; std::any in lock-step through the same routes as second opinion on the pointer form (c++17); "
+                "a (form, target) pair is instantiated only if its CAPABILITY PROBE (casts.cpp compiled -fsyntax-only in probe mode against the tree under test, per target, per form when the group fails) compiles. "
                 "TWO-TU part: the harness is linked from two translation units that each define an unnamed-namespace type `Local` (same name, different types, one stored in place and one on the heap); every (stored TU x cast-target TU x 7 cast/type() forms x 6 routes direct/copy/move/copy-assign/move-assign/swap x 2 values) must succeed exactly for the stored type. NESTED part (nested.cpp): two any objects holding Small values or Node{any child} (heap-stored) / Handle{any* child} (in-place) trees up to nesting 3 (quick) / 4 (thorough); operations whose source lives inside the target's own content "
                 "(a = move(Node(a).child), by copy, via construct+swap, over two levels), whose source lives inside the other object, and whose target lives inside an object's content (child = a_j, child.swap(a_j)); value-semantic tree model, deep-copy checks. distinct_nontrivial = distinct world states; faulted_transitions = executions with an injected throw")
     ctx.assumptions += [
         "moved-from any objects are only required to be queryable/assignable/destructible (content unspecified); self move-assignment is not in the alphabet",
         "payload types are harness types whose constructors report to the registry; std::any (libstdc++, C++17) is consulted as a second opinion on fault-free prefixes only",
         "quick: 2 objects with 2 values over all 11 payload types and 3 objects with 1 value over the 9 payload types without class-specific allocation functions; thorough: 3 objects with 2 values over all types, all to fixpoint unless a cap is reported",
+        "spelling-sensitive class: quick 2 objects x 2 values over the 17 types of c06_spell.hpp, thorough additionally 3 objects x 1 value; the reference for every route is direct-initialization T(expr) of the payload (what the documentation of any's converting constructor states and what std::any does); "
+        "the by-value any_cast forms are not used for the explicit-copy types (xtl returns *p by copy-initialization: ill-formed there, a compile-time matter the property does not speak about)",
+        "cast-target part: combinations that do not compile on the tree under test (on the pinned tree: reference / by-value forms for volatile-qualified targets and for references to functions - detail::check_any_cast takes const void* - and every form for cv/ref-qualified function types) are skipped by capability probe and listed in the notes; "
+        "by-value forms are never formed for array / function types (a function cannot return them: language rule); the g++ toolchain of this sandbox decides overload resolution (CWG 2137 for T{src})",
     ]
 
 
 def replay(ctx, rec):
     a = rec["args"]
+    h = rec.get("harness") or ""
+    if h.startswith("c06cast-"):
+        std = h[len("c06cast-"):]
+        ctx.run_harness(build_casts(std, ctx.tier != "quick")[0], a + ["--std", std], tag=h)
+        return
     nested = "--replay" in a and a[a.index("--replay") + 1].startswith("nest")
-    ctx.run_harness(build_nested() if nested else build(), a, tag="c06")
+    spell = h == "c06s" or ("--replay" in a and "spell" in a[a.index("--replay") + 1])
+    ctx.run_harness(build_nested() if nested else build_spell() if spell else build(), a, tag=h or "c06")
